@@ -23,6 +23,7 @@ noreturn void error_at(char *loc, char *fmt, ...) { verif_exit(1); }
 noreturn void error_tok(Token *tok, char *fmt, ...) { verif_diag_tok = tok; verif_exit(1); }
 void warn_tok(Token *tok, char *fmt, ...) {}
 
+#ifndef PENV_CUSTOM_EQUAL
 bool equal(Token *tok, char *op) {
   // iterate over `op` (a string literal at every call site, so the bound is concrete for cbmc)
   int i = 0;
@@ -31,6 +32,7 @@ bool equal(Token *tok, char *op) {
       return false;
   return tok->len == i;
 }
+#endif
 
 Token *skip(Token *tok, char *op) {
   if (!equal(tok, op))
